@@ -48,7 +48,9 @@ func (t *refusing) RoundTrip(q *http.Request) (*http.Response, error) {
 
 type nullWitness struct{}
 
-func (nullWitness) GetLatestCheckpoint(context.Context, string) ([]byte, error) { return nil, os.ErrNotExist }
+func (nullWitness) GetLatestCheckpoint(context.Context, string) ([]byte, error) {
+	return nil, os.ErrNotExist
+}
 func (nullWitness) Update(context.Context, string, uint64, []byte, [][]byte) ([]byte, error) {
 	return nil, errors.New("null witness")
 }
